@@ -164,7 +164,12 @@ def check_finish_window(ctx, cfg, rule="C04.F", only=None):
             continue
         verdicts = {}
         for i, f in enumerate(fins):
-            closers = [c for c in a.calls if (c.key in ("IntrusiveArrayBuilder<$0,$1>::array_assume_init", "GenericArray<$0,$1>::assume_init") or c.fn.endswith("::from_raw")) and a.dominates(f.bb, c.bb) and c.bb != f.bb]
+            # hand-over forms: the crate's own assume_init helpers, Box::from_raw, or core's by-value MaybeUninit::<GenericArray<..>>::assume_init
+            def hands_on(c):
+                if c.key in ("IntrusiveArrayBuilder<$0,$1>::array_assume_init", "GenericArray<$0,$1>::assume_init") or c.fn.endswith("::from_raw"):
+                    return True
+                return c.fn == "core::mem::MaybeUninit::<T>::assume_init" and bool(c.targs) and c.targs[0].get("k") == "adt" and c.targs[0]["def"].split("::")[-1] == "GenericArray"
+            closers = [c for c in a.calls if hands_on(c) and a.dominates(f.bb, c.bb) and c.bb != f.bb]
             bad = []
             for c in a.calls:
                 if c.bb == f.bb or not a.dominates(f.bb, c.bb):
@@ -178,7 +183,7 @@ def check_finish_window(ctx, cfg, rule="C04.F", only=None):
             # early returns inside the window: a `return` reachable from finish without passing a closer
             ok = bool(closers) and not bad
             det = (("storage handed on by %s right after finish(); no foreign call in between" % closers[0].fn.split("::")[-1]) if ok else
-                   ("calls that can unwind or return early while the finished storage has no owner: %s (the elements would be leaked)" % sorted(set(bad)) if bad else "finish() is not followed by array_assume_init / from_raw"))
+                   ("calls that can unwind or return early while the finished storage has no owner: %s (the elements would be leaked)" % sorted(set(bad)) if bad else "finish() is not followed by a hand-over of the storage (array_assume_init / assume_init / from_raw)"))
             site = a.blocks[f.bb].get("split_of", f.bb)
             prev = verdicts.get((f.at, site))
             verdicts[(f.at, site)] = (ok and (prev is None or prev[0]), det if (prev is None or prev[0]) else prev[1], f.at)
